@@ -27,6 +27,19 @@ def _mentions(node, var):
     return any(isinstance(x, ast.Name) and x.id == var for x in ast.walk(node))
 
 
+_NEGOP = {ast.Eq: ast.NotEq, ast.NotEq: ast.Eq, ast.Is: ast.IsNot, ast.IsNot: ast.Is, ast.In: ast.NotIn,
+          ast.NotIn: ast.In}
+
+
+def _negated_text(test):
+    """Text of the logical negation of a single comparison (`x is not None` <-> `x is None`), else None."""
+    if isinstance(test, ast.Compare) and len(test.ops) == 1 and type(test.ops[0]) in _NEGOP:
+        return norm(ast.Compare(left=test.left, ops=[_NEGOP[type(test.ops[0])]()], comparators=test.comparators))
+    if isinstance(test, ast.UnaryOp) and isinstance(test.op, ast.Not):
+        return norm(test.operand)
+    return None
+
+
 class RegionInterp:
     def __init__(self, var, env, consts_ok=None, on_store=None, alias=None):
         self.var = var
@@ -51,10 +64,13 @@ class RegionInterp:
         flags = flags or {}
         for st in body:
             if isinstance(st, ast.If):
-                if norm(st.test) in flags or not _mentions(st.test, self.var):
+                neg = _negated_text(st.test)
+                if norm(st.test) in flags or neg in flags or not _mentions(st.test, self.var):
                     t = norm(st.test)
                     if t in flags:
                         branch = st.body if flags[t] else st.orelse
+                    elif neg in flags:
+                        branch = st.body if not flags[neg] else st.orelse
                     elif isinstance(st.test, ast.UnaryOp) and norm(st.test.operand) in flags:
                         branch = st.body if not flags[norm(st.test.operand)] else st.orelse
                     else:
